@@ -1,5 +1,5 @@
 CONSTANTS Reqs = {"r1", "r2", "r3"}  KeyNames = {"alias1", "k2"}  ResolveTo <- Resolve
   SigTypes = {"jar"}  Digests = {"sha256"}  Sinks = {"file"}  MaxId = 2  Variant = "code"
 SPECIFICATION Spec
-INVARIANTS AuditComplete NoDuplicate SinkFailureBlocks RecordFaithful Isolation Drain NoShutdownCasualty CacheKeySound
+INVARIANTS AuditComplete NoDuplicate SinkFailureBlocks RecordFaithful Isolation Drain ProcessOutlivesRequests NoShutdownCasualty CacheKeySound
 CHECK_DEADLOCK FALSE
